@@ -73,6 +73,10 @@ type split struct {
 	tail   []string
 	tailAt int
 	nLines int
+	// helpers: builtin function names that this file defines locally (parameter, := variable, local const/type) while the
+	// package neither uses the predeclared object of that name anywhere nor declares the name at package level: a package-level
+	// function of that name is an unrelated declaration for every existing declaration (filled in from go/types by Run)
+	helpers []string
 }
 
 func splitFile(src []byte) (*split, error) {
@@ -285,6 +289,19 @@ var transforms = []transform{
 			seenComment = seenComment || hasComment(c.lines)
 		}
 		e.orig(s.tail, s.tailAt)
+		return e.done()
+	}},
+	{"append-predeclared-helpers", func(s *split, tag string, rng *rand.Rand) *emitted {
+		// the pre-1.21 habit: the file carries its own min/max/... helper at package level
+		e := newEmitter()
+		e.orig(s.header, 1)
+		for _, c := range s.chunks {
+			e.orig(c.lines, c.start)
+		}
+		e.orig(s.tail, s.tailAt)
+		for _, h := range s.helpers {
+			e.pad("", fmt.Sprintf("func %s(a, b int) int {", h), "\tif a > b {", "\t\treturn a", "\t}", "\treturn b", "}")
+		}
 		return e.done()
 	}},
 	{"append-negatives", func(s *split, tag string, rng *rand.Rand) *emitted {
@@ -700,6 +717,7 @@ func Run(tier string, seed int64, outDir string) *common.Meta {
 				meta.Notes = append(meta.Notes, "cannot split "+f.ID()+": "+err.Error())
 				continue
 			}
+			s.helpers = predeclaredHelpers(p, f)
 			fb.split = s
 			bases[f.ID()] = fb
 			baseList = append(baseList, fb)
@@ -726,6 +744,7 @@ func Run(tier string, seed int64, outDir string) *common.Meta {
 			meta.TieBroken = append(meta.TieBroken, fmt.Sprintf("pool of appendable negative-example functions is nearly empty (%d)", len(negPool)))
 		}
 		padFree["dangerous-docs"], padFree["append-negatives"] = true, true
+		padFree["append-predeclared-helpers"] = true // builtinShadowDecl rightly reports the appended helper itself
 	}
 	// CLI baseline on the original examples (for the CLI-level variant of the transforms)
 	cliBase := cliDiagnostics(meta, common.RepoDir, base[:nS1], nil)
@@ -796,7 +815,7 @@ func Run(tier string, seed int64, outDir string) *common.Meta {
 	lw := newLaws(infos)
 	for round := 0; round < rounds; round++ {
 		for ti, tr := range transforms {
-			if round > 0 && (tr.name == "identity" || tr.name == "append-decls" || tr.name == "reverse-funcs") {
+			if round > 0 && (tr.name == "identity" || tr.name == "append-decls" || tr.name == "append-predeclared-helpers" || tr.name == "reverse-funcs") {
 				continue
 			}
 			rng := common.NewRand(seed+int64(round)*7919, "c13-"+tr.name)
@@ -1062,3 +1081,44 @@ func expectationsHold(f *fw.File, ws []wkey) bool {
 }
 
 var _ = linter.GetCheckersInfo
+
+// predeclaredHelpers: see split.helpers.
+func predeclaredHelpers(p *fw.Pkg, f *fw.File) []string {
+	if p.Info == nil || p.Types == nil || len(p.Errors) > 0 {
+		return nil
+	}
+	cands := map[string]bool{"max": true, "min": true, "len": true, "cap": true, "new": true, "copy": true, "clear": true, "real": true, "imag": true}
+	for id, obj := range p.Info.Uses {
+		if cands[id.Name] && obj != nil && obj.Pkg() == nil {
+			delete(cands, id.Name) // the predeclared object is used somewhere in the package
+		}
+	}
+	local := map[string]bool{}
+	for id, obj := range p.Info.Defs {
+		if !cands[id.Name] || obj == nil || p.Types.Scope().Lookup(id.Name) != nil {
+			continue
+		}
+		if tf := p.Fset.File(id.Pos()); tf == nil || filepath.Base(tf.Name()) != filepath.Base(f.Path) {
+			continue
+		}
+		switch o := obj.(type) {
+		case *types.Var:
+			if o.IsField() {
+				continue
+			}
+		case *types.Const, *types.TypeName:
+		default:
+			continue
+		}
+		if obj.Parent() == nil || obj.Parent() == p.Types.Scope() {
+			continue
+		}
+		local[id.Name] = true
+	}
+	var out []string
+	for n := range local {
+		out = append(out, n)
+	}
+	sort.Strings(out)
+	return out
+}
